@@ -268,6 +268,9 @@ pub fn reg(m: &mut Map) {
     opx!(m, "el.serialized_size", (a: el), ru, a.serialized_size(Compress::Yes));
     opx!(m, "el.serialized_size_uncompressed", (a: el), ru, a.serialized_size(Compress::No));
     opx!(m, "el.deser", (b: by), rser_el, <Element as CanonicalDeserialize>::deserialize_compressed(&b[..]));
+    opx!(m, "el.ser.drip", (a: el), rser_by, ser_drip(&a));
+    opx!(m, "af.ser.drip", (a: af), rser_by, ser_drip(&a));
+    opx!(m, "enc.ser.drip", (b: by), rser_by, ser_drip(&Encoding(arr32(&b)?)));
     opx!(m, "el.deser.drip", (b: by), rser_el, <Element as CanonicalDeserialize>::deserialize_compressed(Drip(&b[..])));
     opx!(m, "af.deser.drip", (b: by), rser_af, <AffinePoint as CanonicalDeserialize>::deserialize_compressed(Drip(&b[..])));
     opx!(m, "enc.deser.drip", (b: by), rser_by, <Encoding as CanonicalDeserialize>::deserialize_compressed(Drip(&b[..])).map(|e| e.0.to_vec()));
@@ -321,6 +324,32 @@ pub fn reg(m: &mut Map) {
         Some(v) => format!("SOME {}", v.iter().map(fs).collect::<Vec<_>>().join(";")),
         None => "NONE".to_string(),
     });
+}
+
+/// a writer that accepts at most `k` bytes per `write` call (short writes are legal for `Write`)
+pub struct DripW(pub Vec<u8>, pub usize);
+impl ark_std::io::Write for DripW {
+    fn write(&mut self, buf: &[u8]) -> ark_std::io::Result<usize> {
+        let n = core::cmp::min(self.1, buf.len());
+        self.0.extend_from_slice(&buf[..n]);
+        Ok(n)
+    }
+    fn flush(&mut self) -> ark_std::io::Result<()> {
+        Ok(())
+    }
+}
+/// serialise through short-writing sinks (1, 5, 31 bytes per call) and into a slice that is too short (must be an error):
+/// the three outputs and the verdict of the short slice, concatenated
+fn ser_drip<T: CanonicalSerialize>(t: &T) -> Result<Vec<u8>, ark_serialize::SerializationError> {
+    let mut out = Vec::new();
+    for k in [1usize, 5, 31] {
+        let mut w = DripW(Vec::new(), k);
+        t.serialize_with_mode(&mut w, Compress::Yes)?;
+        out.extend_from_slice(&w.0);
+    }
+    let mut short = [0u8; 16];
+    out.push(if t.serialize_with_mode(&mut short[..], Compress::Yes).is_err() { 1 } else { 0 });
+    Ok(out)
 }
 
 /// a reader that delivers one byte per `read` call (short reads are legal for `Read`)
